@@ -149,7 +149,7 @@ static void show_state(int I, int dump) {
 }
 
 static bool set_glob_attr(const char *k, const char *v) {
-    uint8_t *p; long n;
+    uint8_t *p; long n; int64_t i;
     if (!strcmp(k, "host")) { n = parse_hex(v, &p); if (n < 0 || n > 255) { free(p); return false; } memcpy(vp_glob.host, p, (size_t)n); vp_glob.host_len = (size_t)n; free(p); return true; }
     if (!strcmp(k, "hostrep")) { vp_glob.host_full = !strcmp(v, "full"); return !strcmp(v, "full") || !strcmp(v, "copied"); }
     if (!strcmp(k, "hwid")) { n = parse_hex(v, &p); if (n < 0 || n > 255) { free(p); return false; } memcpy(vp_glob.hwid, p, (size_t)n); vp_glob.hwid_len = (size_t)n; free(p); return true; }
@@ -158,6 +158,7 @@ static bool set_glob_attr(const char *k, const char *v) {
         n = parse_blob(v, &p); if (n < 0) return false;
         free(vp_glob.icon); vp_glob.icon = p; vp_glob.icon_len = (size_t)n; vp_glob.icon_present = 1; return true;
     }
+    if (!strcmp(k, "failrc")) { if (!parse_i64(v, &i) || i == 0 || i < -1000 || i > 1000) return false; vp_glob.failrc = (int)i; return true; }
     if (!strcmp(k, "emptyrep")) { vp_glob.empty_block = !strcmp(v, "block"); return !strcmp(v, "block") || !strcmp(v, "null"); }
     if (!strcmp(k, "fname")) {
         if (!strcmp(v, "none")) { free(vp_glob.fname); vp_glob.fname = NULL; vp_glob.fname_len = 0; vp_glob.fname_present = 0; return true; }
